@@ -176,8 +176,9 @@ def collect(fn, mode):
     return edits
 
 
-def rename_file(path, mode):
-    src = open(os.path.join(REPO, path)).read()
+def rename_file(path, mode, src=None):
+    if src is None:
+        src = open(os.path.join(REPO, path)).read()
     if not src.isascii():
         # col_offset counts bytes
         pass
